@@ -300,6 +300,8 @@ def typelib_case(case):
     names = gen_names(rng, n, style, entry_safe=True)       # gitypelib.c validate_name: [A-Za-z0-9_-], at most 2047 bytes
     prefixes = rng.choice(['Lk', 'Lk', 'Lk,L', 'Lkx,Lk', 'Gdk,G', 'Lk,Other', 'Longprefix,Lk,L'])
     foreign = [f for f in rng.sample(FOREIGN, rng.choice([0, 1, 2, 4])) if f not in names]
+    if n <= 3:
+        foreign = []        # tiny namespaces keep exactly n entries (no perfect hash can be built for 2 keys: the index section is left out)
     if foreign and len(names) + len(foreign) > 65535:
         names = names[:65535 - len(foreign)]           # the directory index is a guint16: at most 65535 entries
     names = ['uses_foreign_%d' % k for k in range(len(foreign))] + names if foreign else names
@@ -328,7 +330,11 @@ def typelib_case(case):
                 viol.append(('compile-failed', 'g-ir-compiler failed on %d distinct entries (%s names): exit %s: %s' % (n, style, rc, se[-500:]), replay))
             return res
         data = open(tpath, 'rb').read()
-        tl = typelib.Typelib(data)
+        try:
+            tl = typelib.Typelib(data)
+        except typelib.TypelibDecodeError as e:
+            viol.append(('typelib-malformed', 'the compiled typelib (%d entries) cannot be decoded by the independent decoder: %s' % (n, e), replay))
+            return res
         local = [e for e in tl.entries if e['local']]
         dirnames = [e['name'] for e in local]
         if sorted(dirnames) != sorted(names):
@@ -561,6 +567,8 @@ def run(args):
     chk.require(h['typelibs_compared'] > 0, 'no typelib looked up with and without index')
     chk.require(h['variant:index:hashed'] > 0, 'no compiled typelib carried a directory index')
     chk.require(h['variant:linear:linear-scan'] > 0, 'linear fallback never exercised')
+    if args.scale >= 1 and not args.replay:
+        chk.require(h['variant:index:linear-scan'] > 0, 'no compiled typelib without a directory index (2-entry namespace) was looked up')
     chk.require(h['gtype_probe_after_early_miss'] > 0, 'no GType lookup history with an early miss')
     for k in ('name_probe_present', 'name_probe_absent', 'gtype_probe_present', 'gtype_probe_absent', 'domain_probe_present',
               'domain_probe_absent', 'prefix_match', 'prefix_nomatch'):
